@@ -604,6 +604,31 @@ def _chain(interp, parts):
     return itertools.chain(*[interp.iterate(p) for p in parts])
 
 
+import collections  # noqa: E402
+
+
+@model(collections.deque)
+def m_deque(interp, args, kwargs):
+    """collections.deque without maxlen: a mutable symbolic list that also has popleft / appendleft"""
+    if kwargs or len(args) > 1:
+        raise Unsupported('deque with maxlen')
+    from .mlist import MList, from_concrete
+    from . import seqs
+    if args:
+        src = args[0]
+        if isinstance(src, (SOpt, SChoice)):
+            src = interp.resolve(src)
+        if isinstance(src, (SList, SIter, SEnumerate)):
+            m = MList(interp, interp.st.fresh_name('deque'), None)
+            m.extend(interp, seqs.as_slist(interp, src))
+        else:
+            m = from_concrete(interp, list(interp.iterate(src)), 'deque')
+    else:
+        m = MList(interp, interp.st.fresh_name('deque'), None)
+    m.is_deque = True
+    return m
+
+
 @model(itertools.chain)
 def m_chain(interp, args, kwargs):
     return _chain(interp, list(args))
@@ -823,11 +848,17 @@ def slist_comprehension(interp, xs, gens, i, child, emit):
 class SIter:
     """Iterator over an SList: (sequence, position) cell."""
 
-    def __init__(self, xs, pos):
+    def __init__(self, xs, pos, eager=False):
         self.xs = xs
         self.pos = pos      # int or z3 term
+        # eager: stands for a generator that is used through its contract -- all its items and effects at the
+        # call.  Equivalent to the lazy generator only if it is consumed completely, which is checked where it
+        # is consumed (loop without early exit, list()/deque()/sorted()..., never next()).
+        self.eager = eager
 
     def next(self, interp, default):
+        if self.eager:
+            raise Unsupported('next() on a generator that is used through its contract (items and effects at the call)')
         p = to_z3(self.pos) if not isinstance(self.pos, int) else z3.IntVal(self.pos)
         if interp.st.fork(wrap(p < self.xs.length)):
             v = slist_elem(interp, self.xs, p)
